@@ -119,6 +119,10 @@ func (r *reader) Consume(offset, maxCount int64) (int64, []message.Message, erro
 	if err != nil {
 		return OffsetInvalid, nil, err
 	}
+	if len(msgs) == 0 {
+		// the index points at a message the log file no longer holds
+		return OffsetInvalid, nil, fmt.Errorf("%w: indexed message missing", message.ErrCorrupted)
+	}
 	return msgs[len(msgs)-1].Offset + 1, msgs, nil
 }
 
